@@ -39,19 +39,20 @@ Proof.
   intros E. apply app_eq_nil in E. destruct E as [_ E]. discriminate.
 Qed.
 
-Definition week_ok (w : bytes) : Prop := is_localrep (ready_name w) = false.
+(* weeks are dates of end instants *)
+Definition week_ok (w : bytes) : Prop := exists e, w = uploader_week e.
 
-Lemma week_ok_fmt day : week_ok (fmt_date day).
+Lemma week_ok_uploader e : week_ok (uploader_week e).
+Proof. exists e. reflexivity. Qed.
+
+Lemma week_not_local w : week_ok w -> is_localrep (ready_name w) = false.
 Proof.
-  unfold week_ok, is_localrep, ready_name.
-  pose proof (fmt_date_small day) as Hs. pose proof (fmt_date_nonempty day) as Hn.
-  destruct (fmt_date day) as [|c s]; [contradiction|].
+  intros [e ->]. unfold uploader_week, is_localrep, ready_name.
+  pose proof (fmt_date_small (e / 86400)) as Hs. pose proof (fmt_date_nonempty (e / 86400)) as Hn.
+  destruct (fmt_date (e / 86400)) as [|c s]; [contradiction|].
   inversion Hs; subst. unfold small in *. simpl.
   destruct (N.eqb_spec c 108); auto. lia.
 Qed.
-
-Lemma week_ok_uploader e : week_ok (uploader_week e).
-Proof. apply week_ok_fmt. Qed.
 
 (* ---------------------------------------------------------------- the invariant *)
 Definition cnames (l : list (bytes * cfile)) : Prop := Forall (fun e => is_count (fst e) = true) l.
@@ -103,7 +104,7 @@ Proof.
 Qed.
 
 Lemma rname_ready w : week_ok w -> rname (ready_name w).
-Proof. intros H. split; [apply is_count_ready|split; [exact H|apply is_json_ready]]. Qed.
+Proof. intros H. split; [apply is_count_ready|split; [apply week_not_local; exact H|apply is_json_ready]]. Qed.
 
 Lemma group_add_ok g w e :
   Forall (fun g => week_ok (fst g) /\ cnames (snd g)) g -> week_ok w -> is_count (fst e) = true ->
